@@ -37,6 +37,9 @@ Scope, said once:
   can supply — the readers refuse NaN — and which the extreme-value stream reaches only through
   values constructed in code, where model and code agreed on every generated case.
 -/
+import Compass.Gen.Decisions
+import Compass.Proofs.Num
+import Compass.Model.Search
 import Compass.Proofs.SearchTree
 import Compass.Proofs.Instance
 import Compass.Proofs.SearchRoute
@@ -373,6 +376,28 @@ example : ∃ r tree o, SearchRoute.Example.exConfig.runEdge 4 none [1, 2, 3] = 
     obtain ⟨tree, h1, ⟨o, h2, h3, _⟩, _⟩ := edge_oriented_tree_rooted SearchRoute.Example.exConfig
       SearchRoute.Example.exConfig_adj 4 [1, 2, 3] r ⟨3, 1, 700⟩ rfl hr
     exact ⟨r, tree, o, rfl, h1, h2, h3⟩
+
+end C01
+end Compass
+
+namespace Compass
+namespace C01
+open Src
+
+/-! ### Source decision ties
+
+The relational operators at the named comparison sites of the Rust source are re-extracted on every run
+by `tools/gen_model.py` into `Compass/Gen/Decisions.lean` (`Src.<site> : Src.Rel`).  Each theorem below
+says that the hand-written model decides at that site by exactly the operator the source has there
+(`Rel.nat` / `Rel.int` / `Rel.num` interpret the extracted operator; an unrecognised line is `none`).  A
+source change that turns `<` into `<=`, `>` into `>=`, … at a site changes the generated constant and this
+proof obligation stops checking, whether or not a generated case lands on the tie. -/
+
+/-- shared by every search property: the label test of `run_a_star`'s relaxation (`improves`) is the
+source's `tentative_gscore < existing_gscore`; with `<=` an equal-cost arrival re-labels an expanded vertex -/
+theorem src_relax_improves {α : Type} [Field α] [LinearOrder α] [IsStrictOrderedRing α] [Lit α] [LawfulLit α] (tent ex : α) :
+    some (improves tent (some ex)) = relax_improves.num tent ex := by
+  simp [improves, relax_improves, Rel.num]
 
 end C01
 end Compass
